@@ -9,7 +9,7 @@ META = {
                  "reader-required keys always written) for FilePreamble, BlockParameters, StorageParameters, StorageHints, "
                  "CollectionParameters, plus RFC 8618 key numbers/types; R09.2 every optional member starts read() absent; "
                  "R09.3 present-but-empty optional structures are written as one item; R09.4 no narrowing between member "
-                 "and wire; R09.5 header functions delegate to the preamble and lists keep their order. list-replaced: an array-valued member is emptied before elements are appended or replaced unconditionally by the decoded list. R09.6: no exception in a preamble reader is control-dependent on a decoded value unless the writer validates too (taint from the value readers; positive and negative control in tu/rule_controls.cpp).",
+                 "and wire; R09.5 header functions delegate to the preamble and lists keep their order. list-replaced: an array-valued member is emptied before elements are appended or replaced unconditionally by the decoded list. R09.6: no exception in a preamble reader is control-dependent on a decoded value unless the writer validates too (taint from the value readers; positive and negative control in tu/rule_controls.cpp). R09.7 = R06.2: no write_int call can be refused for lack of space - per-item thresholds, head-size functions of the value, or a run of items whose length was computed from m_avail with nothing advancing the cursor in between.",
     "explanation": "Cross-check of sibling implementations (write vs read) of five structs, decided on the AST for every "
                    "preamble value; equality of text payloads is delegated to the string paths of C06/C07.",
     "trusted_base": ["clang 14 AST", "rfc8618_tables.json"],
@@ -117,6 +117,10 @@ def check_no_reader_only_rejection(run, rule, pairs):
 
 def check(run):
     facts = run.facts
+    # every member written is written completely: no integer of a (possibly long) list is refused by the encoder and dropped
+    # (R06.2 imported - constant thresholds, head-size functions, and runs whose length was taken from the free space)
+    from . import C06 as _C06
+    _C06.check_public_writes(run, rename={"R06.2": "R09.7", "R06.3": None})
     was = {}
     pairs = {}
     for s in STRUCTS:
